@@ -3,3 +3,4 @@ import Proofs.C09
 import Proofs.C07
 import Proofs.C12
 import Proofs.C11
+import Proofs.C13
